@@ -8,7 +8,10 @@ PROP = {'streams': [('c13', 2000, 60000)],
          '(store with unknown attributes kept, and substituted) vs fresh concrete is_authorized vs model; non-trivial = at least one residual '
          'policy; distinct by canonical request+policies',
  'theorems': ['table_sound', 'pinterp_sound_partial', 'callDRT_every', 'drt_of_canon', 'pinterp_sound_subst', 'pinterp_sound_partial2',
-              'pinterpSoundFull_needs_cover', 'reauthorize_eq_fresh', 'reauthorize_eq_fresh_frag', 'reauthorize_eq_fresh_frag2'],
+              'pinterpSoundFull_needs_cover', 'reauthorize_eq_fresh', 'reauthorize_eq_fresh_frag', 'reauthorize_eq_fresh_frag2',
+              'pinterp_sound_store', 'pinterp_sound_store_reauth', 'pinterp_sound_store_reauth_direct', 'second_round_needed', 'direct_unknown_one_round',
+              'missing_unbound_counterexample', 'partial_definite_sound', 'partial_authorization_sound', 'restricted_eval_sound',
+              'concretize_entry_gives_conc', 'context_substitute_gives_completes'],
  'assumptions': ["error classes are not compared between residual evaluation and concrete evaluation (the property says 'errors')",
                  'unknowns created by a partial store for missing entities are substituted by the entity itself; the completed store is the full '
                  'store',
@@ -24,9 +27,19 @@ TEXT = ('Lean theorems over the mirror of partial_interpret (residual arms, best
  'constructors with the split semantics, every extension function — the print/parse round trip of the canonical constructor call is proved for '
  'decimal, ip (v4 and v6), datetime, duration: callDRT_every); pinterp_sound_partial / pinterp_sound_partial2 (the reauthorize form: the '
  'residual re-interpreted with the mapper on the concretised request); reauthorize_eq_fresh (given residual soundness) and '
- 'reauthorize_eq_fresh_frag / _frag2 (composed, no soundness hypothesis); pinterpSoundFull_needs_cover (the full statement needs a substitution '
+ 'reauthorize_eq_fresh_frag / _frag2 (composed, no soundness hypothesis); pinterp_sound_store / pinterp_sound_store_reauth (both forms for '
+ 'a partial store completed by the concrete store under the substitution — unknown attribute / tag values, direct or nested, .partial() '
+ 'stores with the uid-named unknowns bound — and residual contexts; the reauthorize form in one round on the substituted store, and on the '
+ 'unsubstituted store exactly when the residual attributes are direct unknowns: pinterp_sound_store_reauth_direct); second_round_needed / direct_unknown_one_round / '
+ 'missing_unbound_counterexample (kernel-checked: on the unsubstituted store a nested unknown needs a second reauthorize round, a direct '
+ 'unknown attribute does not, a direct unknown tag does); partial_definite_sound / partial_authorization_sound (policy sets with static and '
+ 'template-linked policies: a definite partial decision is the concrete decision, must ⊆ determining ⊆ may, and one reauthorize round on the '
+ 'substituted store equals the fresh concrete authorization — table_sound and reauthorize_eq_fresh with their hypotheses discharged); '
+ 'pinterpSoundFull_needs_cover (the full statement needs a substitution '
  'that defines every typed unknown); tied to the code by a differential run (partial observable and reauthorized responses), plus the statement '
  'itself evaluated on the implementation for sampled substitutions.',
- 'proof over a hand-written model; pinterp soundness is proved on a fragment (full statement kept as a Prop; missing: residual contexts, unknown '
- 'attribute/tag values in entities, .partial() stores, calls of unknown() in the policy text; record constructors are assumed to have distinct '
- 'keys and values to be canonical as Rust holds them); correspondence sampled (harness/src/c13.rs); residual shapes never compared')
+ 'proof over a hand-written model; pinterp soundness is proved on a fragment (full statement kept as a Prop; missing: .partial() stores '
+ 'only under the hypothesis that every missing entity is bound by the substitution (not relativised to the entities dereferenced), the '
+ 'one-round statement on the unsubstituted store for direct unknowns only at expression level, residual contexts / attributes specified '
+ 'through evaluate-after-substitute rather than the restricted evaluator, calls of unknown() in the policy text; record constructors are '
+ 'assumed to have distinct keys and values to be canonical as Rust holds them); correspondence sampled (harness/src/c13.rs); residual shapes never compared')
